@@ -66,6 +66,9 @@ def shapes(P, in_class, member='Value'):
             'const This&': T('This', 1, '&'),
             'This::Sub': T('This::Sub'),
             'V<This>': T(V, t=[T('This')]),
+            'This*': T('This', 0, '*'),
+            'const This@': T('This', 1, '@'),
+            'gt::This::Sub::Deep': T('gt::This::Sub::Deep'),
             'V<This::Sub>': T(V, t=[T('This::Sub')]),
         })
     return s
